@@ -28,7 +28,8 @@ EXPLANATION = (
     "an independent oracle derives from the documented linking rules (first matching link/link_constant/link_function "
     "in recipe order; fields before parameters for explicit links; same-named parameter, rightmost first, before the "
     "same-named field for top-level defaults only; from_param at any level; unlinked required or forbidden optional "
-    "fields refuse the converter). Emitted text is audited; no converter is ever called."
+    "fields refuse the converter). Emitted text is audited; no converter is ever called. Linked user functions that do "
+    "return when called (counter / container factories with a call recorder) must not be run by the code generator."
 )
 RULE = "one evaluation = one search-order component / one plan-construction obligation / one emitted program"
 ASSUMPTIONS = ["which provider answers a LinkingRequest is recipe resolution (C09); predicate meaning is C10",
